@@ -391,6 +391,10 @@ def _borrowed(modname, fname):
 
 # "its value or error object is exactly what that response carried": the client-side Response parser (C15 R3-R5, R8)
 BORROWED = [_borrowed("c15", n) for n in ("r3_field_tables", "r4_duplicate_guards", "r5_acceptance_table", "r8_into_owned_is_fieldwise", "r9_client_tries_response_first")]
+# a subscribe call's outcome is what its response carried: an id the server hands out again after the earlier subscription
+# ended must be usable - RequestManager::unsubscribe removes the id's reverse-index entry (else the later subscribe call,
+# answered `result: <id>`, fails with InvalidSubscriptionId) (= C05.R4)
+BORROWED += [_borrowed("c05", "r4_single_unsubscribe")]
 
 
 
